@@ -857,6 +857,240 @@ def divergence_probe():
 		return 'does-not-terminate-within-5s'
 
 
+# ---------------------------------------------------------------------------------------------------------------------
+# hash, then assign a member of the SAME transaction object in place, then hash again (self-contained family: own generator,
+# implementation driver and oracle; no model expression -- the hash definitions P above are applied to the bytes the object serializes to)
+
+REHASH_KEEP = ('type_', 'version')    # assigning these makes the object a different (ill-formed) kind of transaction
+
+
+def rehash_members(obj, path=(), depth=0):
+	"""[(path, class of value, current value)] of everything assignable in a transaction object (nested structs, first array elements)."""
+	import enum
+	from symbolchain.BaseValue import BaseValue
+	from symbolchain.ByteArray import ByteArray
+	found = []
+	for name in dir(type(obj)):
+		descriptor = getattr(type(obj), name, None)
+		if name.startswith('_') or name in REHASH_KEEP or not isinstance(descriptor, property) or descriptor.fset is None:
+			continue
+		try:
+			value = getattr(obj, name)
+		except Exception:  # pylint: disable=broad-except
+			continue
+		here = path + (name,)
+		if value is None or isinstance(value, bool):
+			continue
+		if isinstance(value, enum.Enum):
+			found.append((here, 'enum', value))
+		elif isinstance(value, BaseValue):
+			found.append((here, 'base', value))
+		elif isinstance(value, ByteArray):
+			found.append((here, 'bytearray', value))
+		elif isinstance(value, (bytes, bytearray, memoryview)):
+			found.append((here, 'bytes', bytes(value)))
+		elif isinstance(value, int):
+			found.append((here, 'int', value))
+		elif isinstance(value, list):
+			if value:
+				found.append((here, 'list', value))
+				if depth < 3 and hasattr(value[0], 'serialize'):
+					found += rehash_members(value[0], here + (0,), depth + 1)
+		elif hasattr(value, 'serialize') and depth < 3:
+			found += rehash_members(value, here, depth + 1)
+	return found
+
+
+def rehash_assignment(rng, path, klass, value):
+	edit = {'path': list(path)}
+	if klass == 'base':
+		return {**edit, 'op': rng.choice(['base', 'base', 'base-inplace']), 'value': value.value ^ (1 << rng.randrange(8 * value.size - 1))}
+	if klass == 'int':
+		return {**edit, 'op': 'int', 'value': value ^ 1}
+	if klass == 'bytearray':
+		return {**edit, 'op': 'bytearray', 'value': flip(value.bytes, rng.randrange(8 * len(value.bytes))).hex()}
+	if klass == 'bytes':
+		choices = [value + bytes([rng.randrange(256)])] + ([flip(value, rng.randrange(8 * len(value))), value[:-1]] if value else [])
+		return {**edit, 'op': 'bytes', 'value': rng.choice(choices).hex()}
+	if klass == 'enum':
+		others = [member.name for member in type(value) if member is not value]
+		return {**edit, 'op': 'enum', 'value': rng.choice(others)} if others else None
+	return {**edit, 'op': rng.choice(['pop', 'dup'])}
+
+
+def rehash_apply(transaction, edit):
+	"""The change is made on the object itself: through the member's setter, or (pop / dup / base-inplace) inside the member's current value."""
+	target = transaction
+	for step in edit['path'][:-1]:
+		target = target[step] if isinstance(step, int) else getattr(target, step)
+	name = edit['path'][-1]
+	old = getattr(target, name)
+	operation = edit['op']
+	if operation == 'base':
+		setattr(target, name, type(old)(edit['value']))
+	elif operation == 'base-inplace':
+		old.value = edit['value']
+	elif operation == 'int':
+		setattr(target, name, edit['value'])
+	elif operation == 'bytearray':
+		setattr(target, name, type(old)(bytes.fromhex(edit['value'])))
+	elif operation == 'bytes':
+		setattr(target, name, bytes.fromhex(edit['value']))
+	elif operation == 'enum':
+		setattr(target, name, type(old)[edit['value']])
+	elif operation == 'pop':
+		old.pop()
+	else:
+		old.append(old[0])
+
+
+def rehash_nem_transactions(rng):
+	"""(network, label, serialized) of NEM transactions built through the facade factory + a default object of every class."""
+	from symbolchain import nc
+	from symbolchain.CryptoTypes import Hash256, PublicKey
+	from symbolchain.facade.NemFacade import NemFacade
+	result = []
+	for network_name in ('testnet', 'mainnet'):
+		facade = NemFacade(network_name)
+		signer = PublicKey(rand_bytes(rng, 32))
+		address = facade.network.public_key_to_address(PublicKey(rand_bytes(rng, 32)))
+		base = {'signer_public_key': signer, 'fee': rng.randrange(10**6), 'timestamp': rng.randrange(2**31), 'deadline': rng.randrange(2**31)}
+		transfer1 = facade.transaction_factory.create({
+			**base, 'type': 'transfer_transaction_v1', 'recipient_address': address, 'amount': rng.randrange(10**9),
+			'message': {'message_type': 'plain', 'message': 'hello nem'}})
+		transfer2 = facade.transaction_factory.create({
+			**base, 'type': 'transfer_transaction_v2', 'recipient_address': address, 'amount': rng.randrange(10**9),
+			'mosaics': [{'mosaic': {'mosaic_id': {'namespace_id': {'name': b'nem'}, 'name': b'xem'}, 'amount': rng.randrange(10**9)}}]})
+		modification = facade.transaction_factory.create({
+			**base, 'type': 'multisig_account_modification_transaction_v2', 'min_approval_delta': 1,
+			'modifications': [{'modification': {'modification_type': 'add_cosignatory', 'cosignatory_public_key': rand_bytes(rng, 32).hex().upper()}}
+				for _ in range(2)]})
+		multisig = facade.transaction_factory.create({
+			**base, 'type': 'multisig_transaction_v1', 'inner_transaction': facade.transaction_factory.to_non_verifiable_transaction(transfer2)})
+		cosignature = facade.transaction_factory.create({
+			**base, 'type': 'cosignature_v1', 'other_transaction_hash': Hash256(rand_bytes(rng, 32)), 'multisig_account_address': address})
+		cosignature.signature = nc.Signature(rand_bytes(rng, 64))
+		wrapper = nc.SizePrefixedCosignatureV1()
+		wrapper.cosignature = cosignature
+		multisig.cosignatures.append(wrapper)
+		for label, transaction in (('transfer_v1', transfer1), ('transfer_v2', transfer2), ('multisig_account_modification', modification),
+			('multisig+cosignature', multisig), ('cosignature', cosignature)):
+			transaction.signature = nc.Signature(rand_bytes(rng, 64))
+			result.append((network_name, label, bytes(transaction.serialize())))
+	for name in sorted(n for n in dir(nc) if 'Transaction' in n and n[-2] == 'V' and n[-1].isdigit() and not n.startswith('NonVerifiable')):
+		transaction = getattr(nc, name)()
+		if name.startswith('Multisig' + 'TransactionV'):
+			transaction.inner_transaction = nc.NonVerifiableTransferTransactionV1()
+		transaction.signature = nc.Signature(rand_bytes(rng, 64))
+		transaction.signer_public_key = nc.PublicKey(rand_bytes(rng, 32))
+		result.append(('testnet', f'default:{name}', bytes(transaction.serialize())))
+	return result
+
+
+def gen_rehash(rng, tier):
+	from symbolchain import nc, sc
+	sources = [('symbol', network, label, buffer) for network, label, buffer in symbol_transactions(rng, 'quick')]
+	sources += [('nem', network, label, buffer) for network, label, buffer in rehash_nem_transactions(rng)]
+	per_transaction = 3 if tier == 'quick' else 12
+	orders = [['hash'], ['hash', 'hash'], ['hash'], []]
+	cases = []
+	for chain, network, label, buffer in sources:
+		try:
+			transaction = (sc if chain == 'symbol' else nc).TransactionFactory.deserialize(buffer)
+			if bytes(transaction.serialize()) != bytes(buffer):
+				continue
+			members = rehash_members(transaction)
+		except Exception:  # pylint: disable=broad-except
+			continue
+		if not members:
+			continue
+		# always: a fee-like top-level number; for aggregates / multisig: the transactions hash, an embedded / inner member, the cosignatures
+		wanted = [[m for m in members if len(m[0]) == 1 and m[1] == 'base']]
+		wanted.append([m for m in members if m[0] == ('transactions_hash',)])
+		wanted.append([m for m in members if m[0][0] in ('transactions', 'inner_transaction') and len(m[0]) > 1])
+		wanted.append([m for m in members if m[0][0] in ('cosignatures', 'signature', 'signer_public_key')])
+		picks = [rng.choice(group) for group in wanted if group]
+		while len(picks) < per_transaction:
+			picks.append(rng.choice(members))
+		for member_path, klass, value in picks:
+			edit = rehash_assignment(rng, member_path, klass, value)
+			if edit is None:
+				continue
+			cases.append({
+				'kind': 'rehash', 'chain': chain, 'network': network, 'label': label, 'b': bytes(buffer).hex(), 'uses': orders[len(cases) % len(orders)],
+				'edit': edit, 'member': '.'.join(str(step) for step in member_path), 'nomodel': True})
+	return cases
+
+
+def impl_rehash(case):
+	from symbolchain import nc, sc
+	from symbolchain.facade.NemFacade import NemFacade
+	from symbolchain.facade.SymbolFacade import SymbolFacade
+	try:
+		symbol = case['chain'] == 'symbol'
+		facade = SymbolFacade(case['network']) if symbol else NemFacade(case['network'])
+		transaction = (sc if symbol else nc).TransactionFactory.deserialize(bytes.fromhex(case['b']))
+		first = [facade.hash_transaction(transaction).bytes.hex() for _ in case['uses']]
+		embedded_first = SymbolFacade.hash_embedded_transactions(transaction.transactions).bytes.hex() if symbol and hasattr(transaction, 'transactions') else None
+		before = bytes(transaction.serialize())
+		try:
+			rehash_apply(transaction, case['edit'])
+			after = bytes(transaction.serialize())
+		except Exception as ex:  # pylint: disable=broad-except
+			return {'error': f'unparsable:{type(ex).__name__}'}
+		second = facade.hash_transaction(transaction).bytes.hex()
+		out = {'first': first, 'before': before.hex(), 'after': after.hex(), 'second': second, 'still': bytes(transaction.serialize()) == after}
+		if embedded_first is not None:
+			out['embedded_first'] = embedded_first
+			out['embedded_second'] = SymbolFacade.hash_embedded_transactions(transaction.transactions).bytes.hex()
+			out['embedded_after'] = [bytes(e.serialize()).hex() for e in transaction.transactions]
+		return out
+	except Exception as ex:  # pylint: disable=broad-except
+		return {'error': canonical_exception(ex)}
+
+
+def p_transaction_hash(case, buffer):
+	"""The property's definition applied to serialized bytes."""
+	if case['chain'] == 'symbol':
+		return sha3(buffer[8:72] + buffer[72:104] + bytes.fromhex(seed_of(case['network'])) + p_window(buffer)).hex()
+	import sha3 as keccak   # harness shim (hashlib has no original Keccak)
+	return keccak.keccak_256(p_nem_non_verifiable(buffer)).digest().hex()
+
+
+def oracle_rehash(case, out):
+	if 'error' in out:
+		return None if out['error'].startswith('unparsable') else f'[rehash-raised] hash / assign / hash on one object raised {out["error"]}'
+	if out['before'] != case['b'] or not out['still']:
+		return None    # the object does not reproduce its bytes: a codec matter (C01/C02)
+	before, after = bytes.fromhex(out['before']), bytes.fromhex(out['after'])
+	what = f'{case["chain"]} {case["label"]}: after {len(case["uses"])} x hash_transaction and then assigning {case["member"]} ({case["edit"]["op"]}) on the same object'
+	expected_before, expected_after = p_transaction_hash(case, before), p_transaction_hash(case, after)
+	if any(value != expected_before for value in out['first']):
+		return f'[hash-definition] {case["chain"]} {case["label"]}: hash before any assignment {out["first"]} != definition {expected_before}'
+	if out['second'] != expected_after:
+		stale = ' -- it is still the hash of the bytes BEFORE the assignment' if out['second'] == expected_before else ''
+		return f'[rehash-not-current] {what}, hash_transaction gives {out["second"]}, the definition on the current bytes {out["after"][:64]}... gives {expected_after}{stale}'
+	if 'embedded_first' in out:
+		expected = p_root([sha3(bytes.fromhex(b)) for b in out['embedded_after']]).hex()
+		if out['embedded_second'] != expected:
+			return f'[rehash-embedded-not-current] {what}, hash_embedded_transactions gives {out["embedded_second"]}, the merkle root of the current embedded hashes is {expected}'
+	return None
+
+
+def run_rehash(check):
+	cases = gen_rehash(check.rng, check.tier)
+	for case in cases:
+		out = impl_rehash(case)
+		changed = 'error' not in out and p_transaction_hash(case, bytes.fromhex(out['before'])) != p_transaction_hash(case, bytes.fromhex(out['after']))
+		label = f'rehash:{case["chain"]}:{case["edit"]["op"]}:' + (out['error'] if 'error' in out else 'covered' if changed else 'uncovered')
+		check.case(label + ':implementation-and-oracle-only', repr(sorted(case.items())), nontrivial='error' not in out)
+		problem = oracle_rehash(case, out)
+		if problem:
+			tag = problem[1:problem.index(']')]
+			check.fail(f'rehash:{case["chain"]}:{tag}:{case["label"].split(":")[0]}', problem, {'case': case, 'observed': out, 'how': 'run.py replay <this file>'})
+	check.extra['rehash_cases'] = len(cases)
+
+
 def run(check, unrecognised):
 	check.trusted += [
 		'translator harness/gen.py (MerkleOps: constants/operators of 31 anchors in Merkle.py, BufferReader.py, SymbolFacade.py, NemFacade.py, '
@@ -912,10 +1146,17 @@ def run(check, unrecognised):
 		'observation outside the property text: deserialize_patricia_tree_nodes(bytes([0, 1])) (input truncated inside a branch path) '
 		f'{check.extra["deserialize_truncated_branch_probe"]}; BufferReader.read_bytes does not bound-check, so eof is never reached; '
 		'the model returns crash:out-of-fuel for it')
+	run_rehash(check)    # last, so that the case stream of the families above is unchanged
 
 
 def replay(data):
 	case = data['replay']['case']
+	if case['kind'] == 'rehash':
+		out = impl_rehash(case)
+		problem = oracle_rehash(case, out)
+		print('observed:', out)
+		print('property:', problem or 'holds')
+		return 1 if problem else 0
 	out = impl(case)
 	problem = oracle(case, out)
 	print('observed:', out)
